@@ -1087,6 +1087,46 @@ func genSched(seed uint64, prop, tier, mode string) *Plan {
 		}
 	}
 
+	// ---- a shared helper, several objects (fine-grain build): the helper index says which (object, lint) pairs
+	// enter which function of package util. Half of the fine-grain runs pick one such function, hand objects that
+	// enter it - through different rules where possible - to all clients as their first operations (through
+	// different registries, so that the clients do not march in step), and let the schedule switch at every
+	// entry of that function on top of a low background rate.
+	helperTarget := ""
+	if strings.HasPrefix(mode, "fg") && !strings.HasPrefix(mode, "fgpair") && g.Chance(0.5) {
+		if hidx := helperIndex(); len(hidx) > 0 {
+			H := pick(g, sortedKeys(hidx))
+			uses := hidx[H]
+			order := g.Perm(len(uses))
+			usedFile := map[string]bool{}
+			c := 0
+			for _, j := range order {
+				if c >= K {
+					break
+				}
+				u := uses[j]
+				if usedFile[u.File] {
+					continue
+				}
+				o := loadCorpusFile(u.File)
+				if o == nil {
+					continue
+				}
+				usedFile[u.File] = true
+				p.Objects = append(p.Objects, *o)
+				oi := len(p.Objects) - 1
+				r1, r2 := g.Intn(shared), g.Intn(shared)
+				burst := []Op{{K: "lint", Obj: oi, Reg: r1, Note: "helper:" + H}, {K: "lint", Obj: oi, Reg: r2, Fresh: true, Note: "helper:" + H}}
+				p.Clients[c] = append(burst, p.Clients[c]...)
+				c++
+			}
+			if c >= 2 {
+				helperTarget = "fn:" + H
+				p.Knobs["helper"] = H
+			}
+		}
+	}
+
 	// ---- schedule
 	sc := &Schedule{Seed: g.U64()}
 	switch g.weighted([]int{2, 4, 4, 5}) {
@@ -1150,6 +1190,11 @@ func genSched(seed uint64, prop, tier, mode string) *Plan {
 				sc.Horizon *= 4
 			}
 		}
+	}
+	if helperTarget != "" {
+		// switch at every entry of the shared helper (statement grain: also between its statements is left to the
+		// background rate), plus a low background rate so that the clients drift apart
+		sc.Strategy, sc.Target, sc.P = "targeted", helperTarget, pick(g, []float64{0.01, 0.05, 0.2})
 	}
 	p.Schedule = sc
 	return p
